@@ -1031,7 +1031,7 @@ def c07_post(rec, c, r, d):
 PROPS["C07"] = {
     "theorems": ["C07_expression_replaced", "C07_fragment_is_call", "C07_element_is_call", "importFromVue_is_ident", "importFromVue_keeps",
                  "C07_ident_tag_not_jsx", "C07_member_and_namespaced_tags", "C07_member_tag_no_jsx", "C07_modifier_keys_printable",
-                 "C07_pragma_callee_one_word", "parseDirective_DirOk", "parseVModel_DirOk", "dedupeProps_NoJsx", "attrStep_ok", "assembleProps_ok", "finishChildren_ok", "trElement_ok", "trFragment_ok", "trAttrs_ok", "trChildList_ok"],
+                 "C07_pragma_callee_one_word", "parseDirective_DirOk", "parseVModel_DirOk", "dedupeProps_NoJsx", "attrStep_ok", "assembleProps_ok", "finishChildren_ok", "trElement_ok", "trFragment_ok", "trAttrs_ok", "trChildList_ok", "openingHook_ok", "visit_NoJsx", "visitKids_NoJsx", "visitAttrs_Prep", "visitChildren_Prep", "visitValue_Post", "finishModule_NoJsx", "C07_module_NoJsx"],
     "cases": c07_cases,
     "post": c07_post,
     "nontrivial": lambda c, r: True,
